@@ -56,6 +56,7 @@ def instances(tier, seed):
         for form in FORMS:
             out.append(("core", dict(kind="algebra", t=ti, s=si, form=form, bind_s=True)))
     out.append(("core", dict(kind="bindrollback")))
+    out.append(("core", dict(kind="failedfirstuse")))
     for ti in cand[:8]:
         for form in ("S T", "T ...", "... S T"):
             out.append(("core", dict(kind="algebra", t=ti, s=0, form=form.replace("T", "U") if form == "T ..." else form, bind_s=False)))
@@ -204,6 +205,17 @@ def scenario(inst, V):
         elif ref == "VE":
             V.check("string-rejected", outcome == "ValueError", outcome=outcome)
         return dict(outcome=outcome, ref=ref)
+    if kind == "failedfirstuse":
+        # a check that fails on a leaf *after* the name was provisionally bound is not a first use
+        bad = [("x", "y"), [1, "s"], {"k": "v"}][V.choose("bad", 3)]
+        with jaxtyped("context"):
+            g1 = c08.observe(bad, PyTree[int, "T"])
+            g2 = c08.observe((1, 2, 3), PyTree[int, "T"])
+            g3 = c08.observe((4, 5, 6), PyTree[int, "T"])
+            g4 = c08.observe((4, 5), PyTree[int, "T"])
+        V.check("algebra-verdict", (g1, g2, g3, g4) == ("REJ", "ACC", "ACC", "REJ"), got=(g1, g2, g3, g4),
+                what="a rejected tree does not bind the structure name")
+        return dict(got=[g1, g2, g3, g4])
     if kind == "bindrollback":
         # T must stay bound when a rollback happens *inside* the check that binds it
         # (inner union member failing after partial progress)
